@@ -9,6 +9,7 @@
 package remux
 
 import (
+	"bytes"
 	"github.com/q191201771/lal/pkg/base"
 )
 
@@ -111,6 +112,11 @@ func (gc *GopCache) Feed(msg base.RtmpMsg, b []byte) bool {
 		}
 	case base.RtmpTypeIdVideo:
 		if msg.IsVideoKeySeqHeader() {
+			// GOPs cached under the previous sequence header cannot be decoded with the new one
+			if gc.VideoSeqHeader != nil && !bytes.Equal(gc.VideoSeqHeader, b) {
+				gc.gopRingLast = 0
+				gc.gopRingFirst = 0
+			}
 			gc.VideoSeqHeader = b
 			Log.Debugf("[%s] cache %s video seq header. size:%d", gc.uniqueKey, gc.t, len(gc.VideoSeqHeader))
 			return true
